@@ -429,7 +429,7 @@ Section ChkTrainer.
           let ok := (tb_status b =? 0)%Z in
           let c := chk_iters (ti_h i) obs0 [] (tb_iters b) ok in
           if negb (c =? 0)%Z then c
-          else if negb ok then 0%Z              (* an exception escaped: nothing is returned *)
+          else if negb ok then 68%Z             (* an exception escaped generate_episode *)
           else if negb (stops_ok (tb_iters b)) then 64%Z
           else if negb (chk_records obs0 (tb_iters b) (tb_ep b)) then 65%Z
           else if negb (one_done_ok (tb_ep b)) then 67%Z
